@@ -122,6 +122,19 @@ pid_t __wrap_waitpid(pid_t pid, int* status, int options) {
   logEvent("waitpid", pid, c->status);
   return pid;
 }
+int __wrap_waitid(idtype_t type, id_t id, siginfo_t* info, int options) {
+  if (!inTask()) return waitid(type, id, info, options);
+  HostG h; chargeCall(); yieldSync();
+  for (;;) {
+    bool any = false;
+    for (Child* k : children) { if (k->reaped || (type == P_PID && k->pid != (int)id)) continue; any = true;
+      if (k->exited) { memset(info, 0, sizeof *info); info->si_pid = k->pid; info->si_signo = SIGCHLD; info->si_code = (k->status & 0x7f) ? CLD_KILLED : CLD_EXITED; info->si_status = (k->status & 0x7f) ? (k->status & 0x7f) : ((k->status >> 8) & 0xff);
+        if (!(options & WNOWAIT)) k->reaped = true; logEvent("waitid", k->pid, options); return 0; } }
+    if (!any) { errno = ECHILD; return -1; }
+    if (options & WNOHANG) { memset(info, 0, sizeof *info); return 0; }
+    netBlock("waitid", -1);
+  }
+}
 int __wrap_kill(pid_t pid, int sig) {
   if (!inTask()) return kill(pid, sig);
   HostG h; chargeCall(); yieldSync();
